@@ -1,4 +1,5 @@
 mod core;
+mod drive;
 mod eng_list;
 mod eng_map;
 mod eng_merkle;
@@ -136,6 +137,32 @@ fn main() {
                 "map_map_or" => replay::<eng_map::MapEng<crdts::Map<u8, crdts::Orswot<u8, u8>, u8>>>(dump, out, &known, opts),
                 e => {
                     eprintln!("unknown engine {}", e);
+                    std::process::exit(2);
+                }
+            }
+        }
+        "drive" => {
+            // drive <engine> <out> <seed> [--n N --m M --k K --histories H --steps T --maxops O --regime R --merge --snap]
+            let engine = &args[2];
+            let out = &args[3];
+            let seed: u64 = args[4].parse().expect("seed");
+            let flags: Vec<&str> = args[5..].iter().map(|s| s.as_str()).collect();
+            let fv = |name: &str, def: usize| -> usize { let v = flagval(&flags, name); if v == 0 { def } else { v } };
+            let regime = flags.iter().position(|f| *f == "--regime").map(|i| flags[i + 1].to_string()).unwrap_or("causal".into());
+            let o = drive::DriveOpts {
+                seed, histories: fv("--histories", 20), steps: fv("--steps", 40), max_ops: fv("--maxops", 12),
+                dims: Dims { n: fv("--n", 3), m: fv("--m", 2), k: fv("--k", 2) },
+                regime, merge: flags.contains(&"--merge"), snap: flags.contains(&"--snap"),
+            };
+            match engine.as_str() {
+                "orswot" => drive::drive::<eng_orswot::OrswotEng>(out, &o),
+                "mvreg" => drive::drive::<eng_mvreg::MVRegEng>(out, &o),
+                "map_mv" => drive::drive::<eng_map::MapEng<crdts::MVReg<u8, u8>>>(out, &o),
+                "map_or" => drive::drive::<eng_map::MapEng<crdts::Orswot<u8, u8>>>(out, &o),
+                "map_map_mv" => drive::drive::<eng_map::MapEng<crdts::Map<u8, crdts::MVReg<u8, u8>, u8>>>(out, &o),
+                "map_map_or" => drive::drive::<eng_map::MapEng<crdts::Map<u8, crdts::Orswot<u8, u8>, u8>>>(out, &o),
+                e => {
+                    eprintln!("no driver for engine {}", e);
                     std::process::exit(2);
                 }
             }
